@@ -38,7 +38,7 @@ inductive PhDefault where
 deriving Repr, DecidableEq
 
 inductive RestTpl where
-  | lazyDotStar        -- `(?P<%s>.*?)`
+  | lazyAllStar        -- `(?P<%s>(?s:.*?))` : any text, newline included (since fc43a19; before: `(?P<%s>.*?)`)
   | unknown
 deriving Repr, DecidableEq
 
@@ -83,7 +83,7 @@ deriving Repr, DecidableEq
 
 /-- what this model assumes of the source (`Props/C01.lean` proves the generated value equal to it) -/
 def Cfg.std : Cfg :=
-  { anchor := .endOfString, phDefault := .notSlashPlus, restTpl := .lazyDotStar, literals := .escaped,
+  { anchor := .endOfString, phDefault := .notSlashPlus, restTpl := .lazyAllStar, literals := .escaped,
     oldRe := .colonIdent, starRe := .starWordEnd, routeRe := .braceOneLevel, splitFirstColon := true,
     loopInOrder := true, staticKeptOut := true, restNormalised := true }
 
@@ -92,7 +92,7 @@ def Cfg.std : Cfg :=
 inductive Tok where
   | lit (s : Text)                   -- `re.escape(s)`
   | ph (name : Text) (rx : Rx)       -- `(?P<name>rx)`
-  | rest (name : Text)               -- `(?P<name>.*?)`, value passed through `split_path_info`
+  | rest (name : Text)               -- `(?P<name>(?s:.*?))`, value passed through `split_path_info`
 deriving Repr, DecidableEq
 
 /-- a value of the match dictionary -/
@@ -267,7 +267,7 @@ def regexText (toks : List Tok) : Text :=
   toks.flatMap (fun
     | .lit s => Rx.reEscape s
     | .ph n rx => "(?P<".toList ++ n ++ '>' :: Rx.print rx ++ [')']
-    | .rest n => "(?P<".toList ++ n ++ ">.*?)".toList) ++ ['\\', 'Z']
+    | .rest n => "(?P<".toList ++ n ++ ">(?s:.*?))".toList) ++ ['\\', 'Z']
 
 /-- `quote_path_segment(s, safe='/').replace('%', '%%')` -/
 def genLit (s : Text) : Text := (quoteBytes [47] (utf8Enc s)).flatMap fun c => if c = '%' then ['%', '%'] else [c]
@@ -304,7 +304,7 @@ def matchAll (u : Ucd) (a : Anchor) : List Tok → Text → List Env
   | .ph n rx :: ts, s =>
     (Rx.run u rx s).flatMap fun x => (matchAll u a ts x.2).map fun e => (n, Val.str x.1) :: e
   | .rest n :: ts, s =>
-    (Rx.run u Rx.lazyDotStar s).flatMap fun x => (matchAll u a ts x.2).map fun e => (n, Val.segs (splitPathInfo x.1)) :: e
+    (Rx.run u Rx.lazyAllStar s).flatMap fun x => (matchAll u a ts x.2).map fun e => (n, Val.segs (splitPathInfo x.1)) :: e
 
 /-- `route.match(path)`: what `re` reports is the first success -/
 def matchToks (u : Ucd) (toks : List Tok) (path : Text) : Option Env := (matchAll u .endOfString toks path).head?
